@@ -1201,7 +1201,9 @@ func (it *Interp) eval(e ast.Expr, env *Env) Value {
 			if lo < 0 || hi > n || lo > hi {
 				it.panics(e, "slice bounds [%d:%d] out of range (len %d)", lo, hi, n)
 			}
-			return &SliceV{b.elems[lo:hi:hi]}
+			// the capacity behind hi stays: an append to the result writes into the array it shares with
+			// the operand, as in Go (a slice reused after [:0] aliases whoever still holds the old one)
+			return &SliceV{b.elems[lo:hi]}
 		case string:
 			n := int64(len(b))
 			if hi < 0 {
